@@ -37,19 +37,25 @@ def _run(ctx, env):
         "code); Write returns (len(b), nil)",
         "WithMask is an option without effect on the directory model (file modes are not in the property text and are not "
         "compared); without a Path option the rotator is only constructed (PathToLog() = DefaultPath()), never written",
+        "records written by the harness are position-dependent (byte j of write k = (53k+1+j) mod 251) and files are "
+        "printed losslessly as +1-runs, so loss, duplication, reordering and permutation inside a record all show",
+        "a restart with other limits (`reopen <opts>`) is a new segment of `Rot.runSegs`; C12.*_across_restarts carry the "
+        "size bound, the backup frame and (for unchanged MaxBackups) the suffix clause across such restarts",
         "MaxSize/MaxBackups take signed integers; negative values are configured into the model as 0 "
         "(C12.negative_limits_act_as_zero) and exercised (-1, MinInt64) like the huge ones (MaxInt64 and neighbours)",
     ]
     ctx.assumptions += [
-        "concurrency: C12.concurrent_writes_never_interleave / concurrent_bounds / concurrent_progress are theorems about "
-        "the generic mutex machine (Model/Mutex.lean, Lemmas/MutexLin.lean: every schedule is linearizable in "
-        "acquisition order) instantiated with the micro-steps of Write (byte by byte)/Close/Sync; what is ASSUMED is "
-        "only that the Go code brackets every method with the one sync.Mutex (Lock first, deferred Unlock) and that "
-        "sync.Mutex is a mutex. Tie for that assumption: the `stress` oracle — goroutines calling Write, Close and Sync "
-        "on one Rotator; its judge is the conclusion of the theorem (whole records, per-goroutine order, all records "
-        "while the oldest slot is unused, directory = sequential rotation rule applied to the records in the order "
-        "read back) — also under the race detector. C12.unbracketed_writes_tear / unbracketed_size_accounting_wrong show "
-        "the same machine without the bracket violates the clause",
+        "concurrency — what is proved and what is not: C12.concurrent_writes_never_interleave / concurrent_complete / "
+        "concurrent_bounds / concurrent_progress / concurrent_returns_in_bounded_time are theorems about an abstract "
+        "machine (Model/Mutex.lean, Lemmas/MutexLin.lean) in which every call is BY CONSTRUCTION Lock(); micro-steps; "
+        "Unlock(): for that machine every schedule is linearizable in acquisition order, dead-lock free and bounded. "
+        "They are NOT statements about rotator.go: deleting r.lock.Lock() from Write, or unlocking before file.Write, "
+        "leaves all of them true. That the Go code really brackets every method with the one sync.Mutex (and that "
+        "sync.Mutex is a mutex) is ASSUMED; its only tie is the `stress` oracle of this check — goroutines calling "
+        "Write, Close and Sync on one Rotator, judged by the conclusion of the theorem (whole records, per-goroutine "
+        "order, all records while the oldest slot is unused, directory = sequential rotation rule applied to the "
+        "records in the order read back) — run plain and under the race detector. The clause `concurrent writers "
+        "never interleave bytes` is therefore: proved for the bracketed model, observed (not proved) for the code",
         "no other process modifies the log directory between operations; file system calls do not fail (disk full, "
         "permissions) in the model — error paths of Write/rotate are exercised by the `errs` implementation oracle only",
         "the cost of one rotation is linear in MaxBackups (one rename attempt per slot): MaxBackups is exercised up to "
